@@ -35,9 +35,13 @@ done
 echo "demo fails with change: $FAILED"
 rm -f "$WT/demo_test.go"
 cd /verif
+# the build cache grows by a race build per scratch worktree: prune it when the disk runs low
+FREE=$(df --output=avail -k / | tail -1)
+if [ "$FREE" -lt 30000000 ]; then go clean -cache >/dev/null 2>&1; fi
 for P in $PROPS; do
   ./check $P $TIER --repo "$WT" > /tmp/sv/$NAME.$P.$TIER.log 2>&1; RC=$?
   echo "check $P $TIER rc=$RC  $(grep -c '^VIOLATION' /tmp/sv/$NAME.$P.$TIER.log) violation line(s)"
   grep -A1 '^VIOLATION' /tmp/sv/$NAME.$P.$TIER.log | grep -v '^VIOLATION' | grep -v '^--' | head -4 | cut -c1-260
   grep '^INCONCLUSIVE\|BUILD-ERROR' /tmp/sv/$NAME.$P.$TIER.log | head -3 | cut -c1-260
 done
+rm -rf /verif/.bin/alt-$(printf '%s' "$WT" | sha1sum | cut -c1-10) 2>/dev/null || true
